@@ -7,27 +7,14 @@
   dict, the force-created flag and a counter for generated ObjectIds.
 -/
 import MongoModel.Update
+import MongoModel.DateTime
 
 namespace MongoModel
 
-/-! ### datetime normalisation (helpers.patch_datetime_awareness_in_document) -/
+/-! ### datetime normalisation: `patch` of MongoModel.DateTime (C18) -/
 
-mutual
-  def patchDT : Val → Val
-    | .date us off =>
-      -- the wall-clock µs are truncated to ms first (`value.microsecond // 1000 * 1000` acts on
-      -- the 0..999999 microsecond field, i.e. floors), then the offset (whole minutes) is removed
-      .date (Int.fdiv (dateUtc us off) 1000 * 1000) none
-    | .doc fs => .doc (patchFields fs)
-    | .arr xs => .arr (patchList xs)
-    | v => v
-  def patchFields : Fields → Fields
-    | [] => []
-    | (k, v) :: r => (k, patchDT v) :: patchFields r
-  def patchList : List Val → List Val
-    | [] => []
-    | x :: r => patchDT x :: patchList r
-end
+/-- `helpers.patch_datetime_awareness_in_document` (the name used throughout this file) -/
+abbrev patchDT : Val → Val := patch
 
 /-! ### state -/
 
@@ -285,7 +272,7 @@ def applyUpdateColl (cfg : Cfg) (now : Int) (c : Coll) (spec0 document0 : Val) (
     Coll × R UpdateResult :=
   let spec := patchDT spec0
   let document := patchDT document0
-  let nowV := Val.date now none
+  let nowV := patchDT (Val.date now none)     -- `$currentDate` normalises the clock value
   match spec, document with
   | .doc ss, .doc dfs =>
     match emptyOperatorCheck cfg dfs with
